@@ -24,6 +24,8 @@ import (
 	"golang.org/x/tools/go/ssa"
 )
 
+var debugConc = os.Getenv("GOSYM_DEBUG_CONC") != ""
+
 type continuation int
 
 const (
@@ -74,6 +76,9 @@ type interpreter struct {
 	lastNow  *Term
 	notes    map[string]string
 	thorough bool
+	curFn    *ssa.Function
+	curInstr ssa.Instruction
+	curFrame *frame
 	fnInfo   map[*ssa.Function]*fnInfo
 	regInfos map[*ssa.Function]*regInfo
 	regPool  [][][]value
@@ -378,6 +383,13 @@ func (i *interpreter) concInt(v value) int64 {
 	if s, ok := v.(sym); ok {
 		if i.path == nil {
 			panic(unsupported{"symbolic index outside a path"})
+		}
+		if debugConc && i.curFn != nil {
+			chain := ""
+			for f, k := i.curFrame, 0; f != nil && k < 8; f, k = f.caller, k+1 {
+				chain += " < " + f.fn.Name()
+			}
+			fmt.Fprintf(os.Stderr, "concretize in %s at %v (%s)%s\n", i.curFn, i.curInstr, i.prog.Fset.Position(i.curInstr.Pos()), chain)
 		}
 		u := i.path.concretize(s.t)
 		if kindSigned(s.k) {
@@ -772,6 +784,9 @@ func runFrame(fr *frame) {
 				}
 			}
 			i.steps++
+			i.curFn = fr.fn
+			i.curFrame = fr
+			i.curInstr = instr
 			if i.steps > i.maxSteps && i.initing == 0 {
 				panic(unsupported{"step budget exceeded (possible non-termination) in " + fr.fn.String()})
 			}
